@@ -11,11 +11,11 @@ Lemma gen_pnv_body_eq : gen_pnv_understood = true ->
   forall fl line s, gen_pnv_body fl line s = pnv_body fl line s.
 Proof.
   intros U fl line s. revert U.
-  unfold gen_pnv_understood; intros U; try discriminate U; clear U.
-  unfold gen_pnv_body, pnv_body, push.
-  destruct fl as [aq ac se cc]; destruct s as [arg ix ia uq ic fe fv]; cbn.
-  destruct (nth_error line ix) as [c|]; [|reflexivity].
-  destruct ia, ic, fv, uq, cc, ac, se, aq; tree_eq.
+  unfold gen_pnv_understood; intros U; try discriminate U. all: clear U.
+  all: unfold gen_pnv_body, pnv_body, push.
+  all: destruct fl as [aq ac se cc]; destruct s as [arg ix ia uq ic fe fv]; cbn.
+  all: destruct (nth_error line ix) as [c|]; [|reflexivity].
+  all: destruct ia, ic, fv, uq, cc, ac, se, aq; tree_eq.
 Qed.
 
 Lemma for_n_pnv_loop fl line : forall n s, for_n (pnv_body fl line) n s = pnv_loop fl line n s.
@@ -29,11 +29,11 @@ Theorem gen_parse_next_value_eq : gen_pnv_understood = true ->
 Proof.
   intros U fl line start_index.
   pose proof (gen_pnv_body_eq U) as B. revert U.
-  unfold gen_pnv_understood; intros U; try discriminate U; clear U.
-  unfold gen_parse_next_value, parse_next_value.
-  destruct (Nat.leb (length line) start_index); [reflexivity|].
-  rewrite (for_n_ext _ _ (B fl line)), for_n_pnv_loop.
-  destruct (pnv_loop fl line _ _) as [s| |]; try reflexivity.
-  unfold pnv_finish. destruct s as [arg ix ia uq ic fe fv]; cbn.
-  destruct arg, ia, fe, ic, uq; reflexivity.
+  unfold gen_pnv_understood; intros U; try discriminate U. all: clear U.
+  all: unfold gen_parse_next_value, parse_next_value.
+  all: destruct (Nat.leb (length line) start_index); [reflexivity|].
+  all: rewrite (for_n_ext _ _ (B fl line)), for_n_pnv_loop.
+  all: destruct (pnv_loop fl line _ _) as [s| |]; try reflexivity.
+  all: unfold pnv_finish. all: destruct s as [arg ix ia uq ic fe fv]; cbn.
+  all: destruct arg, ia, fe, ic, uq; reflexivity.
 Qed.
